@@ -89,6 +89,8 @@ def percall(E, tag=''):
             p['LAYERING_PRMS']['min_okta_to_split'] = E.int(tag + 'p_split', 0, 8)
     if E.choose(2, tag + 'slicing'):
         p['SLICING_PRMS'] = {'height_scale_kwargs': {'min_range': E.real(tag + 'p_minr')}}
+    if E.choose(2, tag + 'has_excl'):
+        p['EXCLUDE_FOR_BASE_HEIGHT_CALC'] = 'zz'      # a bare string (accepted by the code; tests pass one)
     unk = E.choose(3, tag + 'unknown')
     if unk == 1:
         p['NOT_A_PRM'] = E.real(tag + 'p_unk')
